@@ -4,6 +4,9 @@ import (
 	"verif/internal/core"
 
 	_ "verif/internal/props/c09"
+	_ "verif/internal/props/c15"
+	_ "verif/internal/props/c19"
+	_ "verif/internal/props/c20"
 )
 
 func main() { core.Main() }
